@@ -1,16 +1,1645 @@
-//! TEMPORARY stub (replaced by the full codec case generator).
-use crate::util::Rng;
+//! Codec cases: drives the REAL `mesh_to_bin`/`bin_to_mesh`, `image_to_bin`/`bin_to_image`,
+//! `Message` bincode and `reflect_to_bin`/`bin_to_reflect` of bevy_sync on generated inputs and
+//! prints the text lines the formal model replays. All randomness of one call derives from one
+//! `Rng::new(seed)`.
+#![allow(dead_code)]
+
+use std::any::TypeId;
+use std::fmt::Write as _;
+use std::net::{IpAddr, Ipv4Addr, Ipv6Addr};
+
+use bevy::asset::{AssetId, AssetIndex, Assets, Handle};
+use bevy::pbr::{OpaqueRendererMethod, ParallaxMappingMethod, UvChannel};
 use bevy::prelude::*;
-use bevy::render::{mesh::PrimitiveTopology, render_asset::RenderAssetUsages};
+use bevy::reflect::serde::SerializationData;
+use bevy::reflect::{
+    FromReflect, ReflectFromReflect, ReflectRef, ReflectSerialize, TypeInfo, TypeRegistry,
+    VariantInfo, VariantType,
+};
+use bevy::render::mesh::{Indices, MeshVertexAttribute, VertexAttributeValues};
+use bevy::render::render_asset::RenderAssetUsages;
+use bevy::render::render_resource::{Extent3d, PrimitiveTopology, TextureDimension};
+use bevy::render::texture::TextureFormatPixelInfo;
+use bevy_sync::verif::{
+    bin_to_image, bin_to_mesh, bin_to_reflect, image_to_bin, mesh_to_bin, reflect_to_bin, VMessage,
+};
+use uuid::Uuid;
+use wgpu_types::{AstcBlock, AstcChannel, TextureFormat};
+
+use crate::util::{hex, payload, Rng};
+
+// ---------------------------------------------------------------------------------------------
+// shared generators
+// ---------------------------------------------------------------------------------------------
+
+/// Fast hex with the same output as `util::hex` (`-` for the empty slice).
+fn hx(b: &[u8]) -> String {
+    if b.is_empty() {
+        return hex(b);
+    }
+    const D: &[u8; 16] = b"0123456789abcdef";
+    let mut s = Vec::with_capacity(b.len() * 2);
+    for x in b {
+        s.push(D[(x >> 4) as usize]);
+        s.push(D[(x & 15) as usize]);
+    }
+    String::from_utf8(s).unwrap()
+}
+
+const F32_NANS: [u32; 5] = [0x7fc0_0000, 0x7fc0_0001, 0xffc1_2345, 0x7f80_0001, 0xffff_ffff];
+const F64_NANS: [u64; 5] = [
+    0x7ff8_0000_0000_0000,
+    0x7ff8_0000_0000_0001,
+    0xfff8_0000_0001_2345,
+    0x7ff0_0000_0000_0001,
+    0xffff_ffff_ffff_ffff,
+];
+
+/// One f32 bit pattern from the full domain.
+fn f32_bits(rng: &mut Rng) -> u32 {
+    match rng.below(12) {
+        0 | 1 | 2 => rng.next_u64() as u32,
+        3 => 0x0000_0000,
+        4 => 0x8000_0000,
+        5 => 0x7f80_0000,
+        6 => 0xff80_0000,
+        7 => *rng.pick(&F32_NANS),
+        8 => (rng.range(1, 0x007f_ffff) as u32) | ((rng.below(2) as u32) << 31), // subnormal
+        9 => ((rng.below(17) as i32 - 8) as f32).to_bits(),
+        10 => (rng.below(1000) as f32 / 8.0).to_bits(),
+        _ => *rng.pick(&[
+            0x3f80_0000u32, // 1.0
+            0xbf80_0000,    // -1.0
+            0x7f7f_ffff,    // MAX
+            0x0080_0000,    // MIN_POSITIVE
+            0x0000_0001,    // smallest subnormal
+            0x807f_ffff,    // largest negative subnormal
+        ]),
+    }
+}
+
+fn f64_bits(rng: &mut Rng) -> u64 {
+    match rng.below(10) {
+        0 | 1 | 2 => rng.next_u64(),
+        3 => 0,
+        4 => 0x8000_0000_0000_0000,
+        5 => 0x7ff0_0000_0000_0000,
+        6 => 0xfff0_0000_0000_0000,
+        7 => *rng.pick(&F64_NANS),
+        8 => rng.range(1, 0x000f_ffff_ffff_ffff) | (rng.below(2) << 63), // subnormal
+        _ => ((rng.below(17) as i64 - 8) as f64).to_bits(),
+    }
+}
+
+fn gen_f32(rng: &mut Rng) -> f32 {
+    f32::from_bits(f32_bits(rng))
+}
+
+fn gen_f64(rng: &mut Rng) -> f64 {
+    f64::from_bits(f64_bits(rng))
+}
+
+/// An integer bit pattern of `bits` bits from the full domain (0, ±1, signed/unsigned extremes,
+/// random), returned zero-extended; cast with `as` to the wanted type.
+fn int_bits(rng: &mut Rng, bits: u32) -> u128 {
+    let mask: u128 = if bits == 128 { u128::MAX } else { (1u128 << bits) - 1 };
+    let v: u128 = match rng.below(9) {
+        0 => 0,
+        1 => 1,
+        2 => mask,                    // -1 / unsigned max
+        3 => 1u128 << (bits - 1),     // signed min
+        4 => (1u128 << (bits - 1)) - 1, // signed max
+        5 => mask - 1,                // -2
+        6 => rng.below(256) as u128,
+        _ => ((rng.next_u64() as u128) << 64) | rng.next_u64() as u128,
+    };
+    v & mask
+}
+
+const NON_ASCII: [&str; 8] = [
+    "μορφή",
+    "形",
+    "é",
+    "naïve café",
+    "€uro",
+    "😀😀",
+    "\u{10FFFF}",
+    "a\0b",
+];
+
+fn ascii_string(rng: &mut Rng, n: usize) -> String {
+    const A: &[u8] = b"abcdefghijklmnopqrstuvwxyzABCDEFGHIJKLMNOPQRSTUVWXYZ0123456789_-./: ";
+    (0..n).map(|_| *rng.pick(A) as char).collect()
+}
+
+fn gen_char(rng: &mut Rng) -> char {
+    match rng.below(3) {
+        0 | 1 => *rng.pick(&['a', 'é', '€', '😀', '\u{10FFFF}', '\0', '\u{7f}', '\u{80}', '\u{7ff}', '\u{800}', '\u{ffff}', '\u{10000}', '\u{d7ff}', '\u{e000}']),
+        _ => loop {
+            if let Some(c) = char::from_u32(rng.below(0x11_0000) as u32) {
+                break c;
+            }
+        },
+    }
+}
+
+/// Strings: empty, short ASCII, long (`long` bytes), non-ASCII, random scalars.
+fn gen_string(rng: &mut Rng, long: usize) -> String {
+    match rng.below(8) {
+        0 => String::new(),
+        1 | 2 | 3 => {
+            let n = rng.range(1, 24) as usize;
+            ascii_string(rng, n)
+        }
+        4 => {
+            if rng.chance(1, 2) {
+                ascii_string(rng, long)
+            } else {
+                // long and compressible
+                let p = rng.range(1, 9) as usize;
+                let pat = ascii_string(rng, p);
+                pat.chars().cycle().take(long).collect()
+            }
+        }
+        5 | 6 => rng.pick(&NON_ASCII).to_string(),
+        _ => {
+            let n = rng.range(1, 12);
+            (0..n).map(|_| gen_char(rng)).collect()
+        }
+    }
+}
+
+fn gen_uuid(rng: &mut Rng) -> Uuid {
+    match rng.below(8) {
+        0 => Uuid::from_bytes([0u8; 16]),
+        1 => Uuid::from_bytes([0xffu8; 16]),
+        _ => {
+            let b = rng.bytes(16);
+            let mut a = [0u8; 16];
+            a.copy_from_slice(&b);
+            Uuid::from_bytes(a)
+        }
+    }
+}
+
+/// Small most of the time, log-uniform up to `max` otherwise (keeps output sizes sensible).
+fn gen_count(rng: &mut Rng, max: usize) -> usize {
+    if max == 0 {
+        return 0;
+    }
+    let n = match rng.below(10) {
+        0 => 0,
+        1 => 1,
+        2 => 2,
+        3 => 3,
+        4 | 5 | 6 => rng.range(4, 32) as usize,
+        7 if rng.chance(1, 3) => max,
+        _ => {
+            let top = 64 - (max as u64).leading_zeros() as u64; // bits of max
+            let b = rng.range(0, top);
+            rng.below(1u64 << b.min(63)) as usize + (1usize << b.min(62)) / 2
+        }
+    };
+    n.min(max)
+}
+
+// ---------------------------------------------------------------------------------------------
+// meshes
+// ---------------------------------------------------------------------------------------------
+
+fn attr(k: usize) -> MeshVertexAttribute {
+    match k {
+        0 => Mesh::ATTRIBUTE_POSITION,
+        1 => Mesh::ATTRIBUTE_NORMAL,
+        2 => Mesh::ATTRIBUTE_UV_0,
+        3 => Mesh::ATTRIBUTE_UV_1,
+        4 => Mesh::ATTRIBUTE_TANGENT,
+        5 => Mesh::ATTRIBUTE_COLOR,
+        6 => Mesh::ATTRIBUTE_JOINT_WEIGHT,
+        7 => Mesh::ATTRIBUTE_JOINT_INDEX,
+        _ => unreachable!(),
+    }
+}
+
+const ATTR_KEYS: [&str; 8] = ["pos", "nor", "uv0", "uv1", "tan", "col", "jw", "ji"];
+/// components per vertex
+const ATTR_WIDTH: [usize; 8] = [3, 3, 2, 2, 4, 4, 4, 4];
+
+/// `n` 32-bit words (f32 bit patterns): independent, constant, periodic, or a structured byte
+/// stream (matches of length 4, 5, 18..20, 273..275, 600 at arbitrary byte offsets).
+fn gen_words(rng: &mut Rng, n: usize) -> Vec<u32> {
+    match rng.below(6) {
+        0 | 1 => (0..n).map(|_| f32_bits(rng)).collect(),
+        2 => vec![f32_bits(rng); n],
+        3 => {
+            let p = *rng.pick(&[1usize, 2, 3, 4, 5, 6, 7, 12, 19, 20, 68, 69, 137]);
+            let pat: Vec<u32> = (0..p).map(|_| f32_bits(rng)).collect();
+            (0..n).map(|i| pat[i % p]).collect()
+        }
+        4 => {
+            // mostly periodic with sparse defects: bounded match lengths
+            let p = *rng.pick(&[1usize, 2, 3, 4, 5, 7]);
+            let pat: Vec<u32> = (0..p).map(|_| f32_bits(rng)).collect();
+            let mut v: Vec<u32> = (0..n).map(|i| pat[i % p]).collect();
+            let gap = *rng.pick(&[2usize, 5, 6, 19, 20, 69, 70, 300]);
+            let mut i = rng.below(gap as u64) as usize;
+            while i < n {
+                v[i] = rng.next_u64() as u32;
+                i += gap;
+            }
+            v
+        }
+        _ => {
+            let b = payload(rng, n * 4);
+            b.chunks_exact(4).map(|c| u32::from_le_bytes([c[0], c[1], c[2], c[3]])).collect()
+        }
+    }
+}
+
+fn gen_halfwords(rng: &mut Rng, n: usize) -> Vec<u16> {
+    match rng.below(4) {
+        0 => (0..n).map(|_| int_bits(rng, 16) as u16).collect(),
+        1 => vec![rng.next_u64() as u16; n],
+        2 => (0..n).map(|i| (i / 4) as u16).collect(),
+        _ => {
+            let b = payload(rng, n * 2);
+            b.chunks_exact(2).map(|c| u16::from_le_bytes([c[0], c[1]])).collect()
+        }
+    }
+}
+
+fn gen_attr_values(rng: &mut Rng, k: usize, n: usize) -> VertexAttributeValues {
+    let w = ATTR_WIDTH[k];
+    if k == 7 {
+        let h = gen_halfwords(rng, n * 4);
+        return VertexAttributeValues::Uint16x4(
+            h.chunks_exact(4).map(|c| [c[0], c[1], c[2], c[3]]).collect(),
+        );
+    }
+    let f: Vec<f32> = gen_words(rng, n * w).into_iter().map(f32::from_bits).collect();
+    match w {
+        2 => VertexAttributeValues::Float32x2(f.chunks_exact(2).map(|c| [c[0], c[1]]).collect()),
+        3 => VertexAttributeValues::Float32x3(f.chunks_exact(3).map(|c| [c[0], c[1], c[2]]).collect()),
+        _ => VertexAttributeValues::Float32x4(
+            f.chunks_exact(4).map(|c| [c[0], c[1], c[2], c[3]]).collect(),
+        ),
+    }
+}
+
+fn gen_morph_handle(rng: &mut Rng) -> Option<Handle<Image>> {
+    match rng.below(100) {
+        0..=2 => {
+            let mut assets = Assets::<Image>::default();
+            Some(assets.add(Image::default()))
+        }
+        3..=34 => None,
+        35..=67 => Some(Handle::Weak(AssetId::Uuid { uuid: gen_uuid(rng) })),
+        _ => {
+            let bits = match rng.below(5) {
+                0 => 0,
+                1 => u64::MAX,
+                2 => rng.below(100),
+                3 => rng.below(100) << 32,
+                _ => rng.next_u64(),
+            };
+            Some(Handle::Weak(AssetId::Index {
+                index: AssetIndex::from_bits(bits),
+                marker: std::marker::PhantomData,
+            }))
+        }
+    }
+}
+
+fn gen_names(rng: &mut Rng) -> Option<Vec<String>> {
+    match rng.below(10) {
+        0..=2 => None,
+        3 | 4 => Some(vec![]),
+        _ => {
+            let n = rng.range(1, 6);
+            Some(
+                (0..n)
+                    .map(|_| match rng.below(6) {
+                        0 => String::new(),
+                        1 => ascii_string(rng, 300),
+                        2 => rng.pick(&NON_ASCII).to_string(),
+                        _ => gen_string(rng, 300),
+                    })
+                    .collect(),
+            )
+        }
+    }
+}
 
 pub fn random_mesh(rng: &mut Rng, max_vertices: usize) -> Mesh {
-    let n = rng.below(max_vertices as u64 + 1) as usize;
-    let mut mesh = Mesh::new(PrimitiveTopology::TriangleList, RenderAssetUsages::MAIN_WORLD | RenderAssetUsages::RENDER_WORLD);
-    let pos: Vec<[f32; 3]> = (0..n).map(|_| [f32::from_bits(rng.next_u64() as u32), 0.0, 1.0]).collect();
-    mesh.insert_attribute(Mesh::ATTRIBUTE_POSITION, pos);
+    let topo = match rng.below(5) {
+        0 => PrimitiveTopology::PointList,
+        1 => PrimitiveTopology::LineList,
+        2 => PrimitiveTopology::LineStrip,
+        3 => PrimitiveTopology::TriangleList,
+        _ => PrimitiveTopology::TriangleStrip,
+    };
+    let mut mesh = Mesh::new(topo, RenderAssetUsages::MAIN_WORLD | RenderAssetUsages::RENDER_WORLD);
+    let n = gen_count(rng, max_vertices);
+    // which attributes: none / all / each with p = 0.6
+    let mode = rng.below(12);
+    for k in 0..8 {
+        let present = match mode {
+            0 => false,
+            1 | 2 => true,
+            _ => rng.chance(3, 5),
+        };
+        if !present {
+            continue;
+        }
+        // Bevy 0.14 does not force equal lengths
+        let nk = if rng.chance(3, 4) { n } else { gen_count(rng, max_vertices) };
+        let values = gen_attr_values(rng, k, nk);
+        mesh.insert_attribute(attr(k), values);
+    }
+    match rng.below(6) {
+        0 | 1 => {}
+        kind => {
+            let cnt = match rng.below(4) {
+                0 => 0,
+                1 => 3 * n,
+                _ => rng.below(3 * n as u64 + 1) as usize,
+            };
+            let seq = rng.chance(1, 2);
+            let m = if rng.chance(1, 4) || n == 0 { u64::MAX } else { n as u64 };
+            let vals: Vec<u64> = (0..cnt)
+                .map(|i| if seq { i as u64 } else if m == u64::MAX { rng.next_u64() } else { rng.below(m) })
+                .collect();
+            if kind <= 3 {
+                mesh.insert_indices(Indices::U16(vals.iter().map(|v| *v as u16).collect()));
+            } else {
+                mesh.insert_indices(Indices::U32(vals.iter().map(|v| *v as u32).collect()));
+            }
+        }
+    }
+    if let Some(h) = gen_morph_handle(rng) {
+        mesh.set_morph_targets(h);
+    }
+    if let Some(names) = gen_names(rng) {
+        mesh.set_morph_target_names(names);
+    }
     mesh
 }
 
-pub fn random_image(_rng: &mut Rng, _max_extent: u32) -> Image {
-    Image::default()
+fn vav_name(v: &VertexAttributeValues) -> &'static str {
+    use VertexAttributeValues::*;
+    match v {
+        Float32(_) => "Float32",
+        Sint32(_) => "Sint32",
+        Uint32(_) => "Uint32",
+        Float32x2(_) => "Float32x2",
+        Sint32x2(_) => "Sint32x2",
+        Uint32x2(_) => "Uint32x2",
+        Float32x3(_) => "Float32x3",
+        Sint32x3(_) => "Sint32x3",
+        Uint32x3(_) => "Uint32x3",
+        Float32x4(_) => "Float32x4",
+        Sint32x4(_) => "Sint32x4",
+        Uint32x4(_) => "Uint32x4",
+        Sint16x2(_) => "Sint16x2",
+        Snorm16x2(_) => "Snorm16x2",
+        Uint16x2(_) => "Uint16x2",
+        Unorm16x2(_) => "Unorm16x2",
+        Sint16x4(_) => "Sint16x4",
+        Snorm16x4(_) => "Snorm16x4",
+        Uint16x4(_) => "Uint16x4",
+        Unorm16x4(_) => "Unorm16x4",
+        Sint8x2(_) => "Sint8x2",
+        Snorm8x2(_) => "Snorm8x2",
+        Uint8x2(_) => "Uint8x2",
+        Unorm8x2(_) => "Unorm8x2",
+        Sint8x4(_) => "Sint8x4",
+        Snorm8x4(_) => "Snorm8x4",
+        Uint8x4(_) => "Uint8x4",
+        Unorm8x4(_) => "Unorm8x4",
+    }
+}
+
+/// The morph-targets handle (no public getter): via reflection, as `/repo`'s
+/// `extract_morph_targets` does.
+fn morph_of(mesh: &Mesh) -> &Option<Handle<Image>> {
+    (mesh as &dyn Struct)
+        .field("morph_targets")
+        .expect("Mesh.morph_targets is reflected")
+        .downcast_ref::<Option<Handle<Image>>>()
+        .expect("Mesh.morph_targets: Option<Handle<Image>>")
+}
+
+fn topo_num(t: PrimitiveTopology) -> u8 {
+    match t {
+        PrimitiveTopology::PointList => 0,
+        PrimitiveTopology::LineList => 1,
+        PrimitiveTopology::LineStrip => 2,
+        PrimitiveTopology::TriangleList => 3,
+        PrimitiveTopology::TriangleStrip => 4,
+    }
+}
+
+/// `topo=.. pos=.. ... names=..` (the part after `MESH <i> ` / `MESHDEC <i> `).
+pub fn mesh_fields(mesh: &Mesh) -> String {
+    let mut s = String::new();
+    let _ = write!(s, "topo={}", topo_num(mesh.primitive_topology()));
+    for k in 0..8 {
+        match mesh.attribute(attr(k)) {
+            None => {
+                let _ = write!(s, " {}=~", ATTR_KEYS[k]);
+            }
+            Some(v) => {
+                let _ = write!(s, " {}={}:{}", ATTR_KEYS[k], vav_name(v), hx(v.get_bytes()));
+            }
+        }
+    }
+    match mesh.indices() {
+        None => s.push_str(" idx=~"),
+        Some(Indices::U16(v)) => {
+            let b: Vec<u8> = v.iter().flat_map(|x| x.to_le_bytes()).collect();
+            let _ = write!(s, " idx=U16:{}", hx(&b));
+        }
+        Some(Indices::U32(v)) => {
+            let b: Vec<u8> = v.iter().flat_map(|x| x.to_le_bytes()).collect();
+            let _ = write!(s, " idx=U32:{}", hx(&b));
+        }
+    }
+    match morph_of(mesh) {
+        None => s.push_str(" morph=~"),
+        Some(Handle::Strong(_)) => s.push_str(" morph=S"),
+        Some(Handle::Weak(AssetId::Uuid { uuid })) => {
+            let _ = write!(s, " morph=W:{}", hx(uuid.as_bytes()));
+        }
+        Some(Handle::Weak(AssetId::Index { index, .. })) => {
+            let _ = write!(s, " morph=I:{}", index.to_bits());
+        }
+    }
+    match mesh.morph_target_names() {
+        None => s.push_str(" names=~"),
+        Some(names) => {
+            let parts: Vec<String> = names.iter().map(|n| hx(n.as_bytes())).collect();
+            let _ = write!(s, " names=n:{}", parts.join(","));
+        }
+    }
+    s
+}
+
+pub fn mesh_cases(seed: u64, count: usize, max_vertices: usize) -> String {
+    let mut rng = Rng::new(seed);
+    let mut out = String::new();
+    for i in 0..count {
+        let mesh = random_mesh(&mut rng, max_vertices);
+        let _ = writeln!(out, "MESH {} {}", i, mesh_fields(&mesh));
+        let bin = mesh_to_bin(&mesh);
+        let _ = writeln!(out, "MESHBIN {} {}", i, hx(&bin));
+        let dec = bin_to_mesh(&bin);
+        let _ = writeln!(out, "MESHDEC {} {}", i, mesh_fields(&dec));
+    }
+    out
+}
+
+// ---------------------------------------------------------------------------------------------
+// images
+// ---------------------------------------------------------------------------------------------
+
+const ASTC_BLOCKS: [AstcBlock; 14] = [
+    AstcBlock::B4x4,
+    AstcBlock::B5x4,
+    AstcBlock::B5x5,
+    AstcBlock::B6x5,
+    AstcBlock::B6x6,
+    AstcBlock::B8x5,
+    AstcBlock::B8x6,
+    AstcBlock::B8x8,
+    AstcBlock::B10x5,
+    AstcBlock::B10x6,
+    AstcBlock::B10x8,
+    AstcBlock::B10x10,
+    AstcBlock::B12x10,
+    AstcBlock::B12x12,
+];
+const ASTC_CHANNELS: [AstcChannel; 3] = [AstcChannel::Unorm, AstcChannel::UnormSrgb, AstcChannel::Hdr];
+
+/// Every `TextureFormat` variant of wgpu-types 0.20.0 except `Astc` (added per block/channel by
+/// `all_formats`), in declaration order.
+const PLAIN_FORMATS: [TextureFormat; 74] = [
+    TextureFormat::R8Unorm,
+    TextureFormat::R8Snorm,
+    TextureFormat::R8Uint,
+    TextureFormat::R8Sint,
+    TextureFormat::R16Uint,
+    TextureFormat::R16Sint,
+    TextureFormat::R16Unorm,
+    TextureFormat::R16Snorm,
+    TextureFormat::R16Float,
+    TextureFormat::Rg8Unorm,
+    TextureFormat::Rg8Snorm,
+    TextureFormat::Rg8Uint,
+    TextureFormat::Rg8Sint,
+    TextureFormat::R32Uint,
+    TextureFormat::R32Sint,
+    TextureFormat::R32Float,
+    TextureFormat::Rg16Uint,
+    TextureFormat::Rg16Sint,
+    TextureFormat::Rg16Unorm,
+    TextureFormat::Rg16Snorm,
+    TextureFormat::Rg16Float,
+    TextureFormat::Rgba8Unorm,
+    TextureFormat::Rgba8UnormSrgb,
+    TextureFormat::Rgba8Snorm,
+    TextureFormat::Rgba8Uint,
+    TextureFormat::Rgba8Sint,
+    TextureFormat::Bgra8Unorm,
+    TextureFormat::Bgra8UnormSrgb,
+    TextureFormat::Rgb9e5Ufloat,
+    TextureFormat::Rgb10a2Uint,
+    TextureFormat::Rgb10a2Unorm,
+    TextureFormat::Rg11b10Float,
+    TextureFormat::Rg32Uint,
+    TextureFormat::Rg32Sint,
+    TextureFormat::Rg32Float,
+    TextureFormat::Rgba16Uint,
+    TextureFormat::Rgba16Sint,
+    TextureFormat::Rgba16Unorm,
+    TextureFormat::Rgba16Snorm,
+    TextureFormat::Rgba16Float,
+    TextureFormat::Rgba32Uint,
+    TextureFormat::Rgba32Sint,
+    TextureFormat::Rgba32Float,
+    TextureFormat::Stencil8,
+    TextureFormat::Depth16Unorm,
+    TextureFormat::Depth24Plus,
+    TextureFormat::Depth24PlusStencil8,
+    TextureFormat::Depth32Float,
+    TextureFormat::Depth32FloatStencil8,
+    TextureFormat::NV12,
+    TextureFormat::Bc1RgbaUnorm,
+    TextureFormat::Bc1RgbaUnormSrgb,
+    TextureFormat::Bc2RgbaUnorm,
+    TextureFormat::Bc2RgbaUnormSrgb,
+    TextureFormat::Bc3RgbaUnorm,
+    TextureFormat::Bc3RgbaUnormSrgb,
+    TextureFormat::Bc4RUnorm,
+    TextureFormat::Bc4RSnorm,
+    TextureFormat::Bc5RgUnorm,
+    TextureFormat::Bc5RgSnorm,
+    TextureFormat::Bc6hRgbUfloat,
+    TextureFormat::Bc6hRgbFloat,
+    TextureFormat::Bc7RgbaUnorm,
+    TextureFormat::Bc7RgbaUnormSrgb,
+    TextureFormat::Etc2Rgb8Unorm,
+    TextureFormat::Etc2Rgb8UnormSrgb,
+    TextureFormat::Etc2Rgb8A1Unorm,
+    TextureFormat::Etc2Rgb8A1UnormSrgb,
+    TextureFormat::Etc2Rgba8Unorm,
+    TextureFormat::Etc2Rgba8UnormSrgb,
+    TextureFormat::EacR11Unorm,
+    TextureFormat::EacR11Snorm,
+    TextureFormat::EacRg11Unorm,
+    TextureFormat::EacRg11Snorm,
+];
+
+/// Compile-time exhaustiveness guard: adding a variant to `TextureFormat` breaks this match.
+#[allow(clippy::match_same_arms)]
+fn _format_list_is_exhaustive(f: TextureFormat) {
+    use TextureFormat::*;
+    match f {
+        R8Unorm | R8Snorm | R8Uint | R8Sint | R16Uint | R16Sint | R16Unorm | R16Snorm | R16Float
+        | Rg8Unorm | Rg8Snorm | Rg8Uint | Rg8Sint | R32Uint | R32Sint | R32Float | Rg16Uint
+        | Rg16Sint | Rg16Unorm | Rg16Snorm | Rg16Float | Rgba8Unorm | Rgba8UnormSrgb
+        | Rgba8Snorm | Rgba8Uint | Rgba8Sint | Bgra8Unorm | Bgra8UnormSrgb | Rgb9e5Ufloat
+        | Rgb10a2Uint | Rgb10a2Unorm | Rg11b10Float | Rg32Uint | Rg32Sint | Rg32Float
+        | Rgba16Uint | Rgba16Sint | Rgba16Unorm | Rgba16Snorm | Rgba16Float | Rgba32Uint
+        | Rgba32Sint | Rgba32Float | Stencil8 | Depth16Unorm | Depth24Plus
+        | Depth24PlusStencil8 | Depth32Float | Depth32FloatStencil8 | NV12 | Bc1RgbaUnorm
+        | Bc1RgbaUnormSrgb | Bc2RgbaUnorm | Bc2RgbaUnormSrgb | Bc3RgbaUnorm | Bc3RgbaUnormSrgb
+        | Bc4RUnorm | Bc4RSnorm | Bc5RgUnorm | Bc5RgSnorm | Bc6hRgbUfloat | Bc6hRgbFloat
+        | Bc7RgbaUnorm | Bc7RgbaUnormSrgb | Etc2Rgb8Unorm | Etc2Rgb8UnormSrgb
+        | Etc2Rgb8A1Unorm | Etc2Rgb8A1UnormSrgb | Etc2Rgba8Unorm | Etc2Rgba8UnormSrgb
+        | EacR11Unorm | EacR11Snorm | EacRg11Unorm | EacRg11Snorm => {}
+        Astc { .. } => {}
+    }
+}
+
+/// All plain variants followed by every Astc block x channel combination.
+pub fn all_formats() -> Vec<TextureFormat> {
+    let mut v: Vec<TextureFormat> = PLAIN_FORMATS.to_vec();
+    for block in ASTC_BLOCKS {
+        for channel in ASTC_CHANNELS {
+            v.push(TextureFormat::Astc { block, channel });
+        }
+    }
+    v
+}
+
+/// `Some(pixel size)` when uncompressed (1x1 blocks) with a defined copy size.
+fn plain_pixel_size(f: &TextureFormat) -> Option<usize> {
+    if f.block_dimensions() == (1, 1) && f.block_copy_size(None).is_some() {
+        Some(f.pixel_size())
+    } else {
+        None
+    }
+}
+
+/// The formats `random_image` draws from.
+pub fn uncompressed_formats() -> Vec<TextureFormat> {
+    all_formats().into_iter().filter(|f| plain_pixel_size(f).is_some()).collect()
+}
+
+pub fn format_table() -> String {
+    let mut out = String::new();
+    for f in all_formats() {
+        let name = format!("{:?}", f).replace(' ', "");
+        let ser = bincode::serialize(&f).expect("TextureFormat serializes");
+        let px = plain_pixel_size(&f);
+        let _ = writeln!(
+            out,
+            "FMT {} {} {} {}",
+            name,
+            hx(&ser),
+            if px.is_some() { 1 } else { 0 },
+            px.unwrap_or(0)
+        );
+    }
+    out
+}
+
+/// Upper bound of the pixel data of one generated image (bytes); extents are halved until the
+/// data fits, so that a 3-D image with a large `max_extent` still prints in sensible size.
+const IMAGE_DATA_CAP: usize = 1 << 18;
+
+fn gen_extent(rng: &mut Rng, max_extent: u32) -> u32 {
+    let v = match rng.below(7) {
+        0 => 0,
+        1 => 1,
+        2 => 2,
+        3 => 3,
+        4 => max_extent,
+        _ => rng.range(0, max_extent as u64) as u32,
+    };
+    v.min(max_extent)
+}
+
+pub fn random_image(rng: &mut Rng, max_extent: u32) -> Image {
+    let formats = uncompressed_formats();
+    let format = *rng.pick(&formats);
+    let px = format.pixel_size();
+    let (dim, mut w, mut h, mut d) = match rng.below(3) {
+        0 => (TextureDimension::D1, gen_extent(rng, max_extent), 1, 1),
+        1 => (
+            TextureDimension::D2,
+            gen_extent(rng, max_extent),
+            gen_extent(rng, max_extent),
+            rng.range(1, 3) as u32,
+        ),
+        _ => (
+            TextureDimension::D3,
+            gen_extent(rng, max_extent),
+            gen_extent(rng, max_extent),
+            gen_extent(rng, max_extent),
+        ),
+    };
+    while (w as usize) * (h as usize) * (d as usize) * px > IMAGE_DATA_CAP {
+        if w >= h && w >= d {
+            w /= 2;
+        } else if h >= d {
+            h /= 2;
+        } else {
+            d /= 2;
+        }
+    }
+    let n = (w as usize) * (h as usize) * (d as usize) * px;
+    let data = payload(rng, n);
+    Image::new(
+        Extent3d { width: w, height: h, depth_or_array_layers: d },
+        dim,
+        data,
+        format,
+        RenderAssetUsages::MAIN_WORLD | RenderAssetUsages::RENDER_WORLD,
+    )
+}
+
+/// `w=.. h=.. d=.. dim=.. fmt=.. data=..`
+pub fn image_fields(img: &Image) -> String {
+    let t = &img.texture_descriptor;
+    let dim = match t.dimension {
+        TextureDimension::D1 => 1,
+        TextureDimension::D2 => 2,
+        TextureDimension::D3 => 3,
+    };
+    format!(
+        "w={} h={} d={} dim={} fmt={} data={}",
+        t.size.width,
+        t.size.height,
+        t.size.depth_or_array_layers,
+        dim,
+        hx(&bincode::serialize(&t.format).expect("TextureFormat serializes")),
+        hx(&img.data)
+    )
+}
+
+pub fn image_cases(seed: u64, count: usize, max_extent: u32) -> String {
+    let mut rng = Rng::new(seed);
+    let mut out = String::new();
+    for i in 0..count {
+        let img = random_image(&mut rng, max_extent);
+        let _ = writeln!(out, "IMG {} {}", i, image_fields(&img));
+        match image_to_bin(&img) {
+            None => {
+                let _ = writeln!(out, "IMGBIN {} NONE", i);
+                let _ = writeln!(out, "IMGDEC {} NONE", i);
+            }
+            Some(bin) => {
+                let _ = writeln!(out, "IMGBIN {} {}", i, hx(&bin));
+                match bin_to_image(&bin) {
+                    None => {
+                        let _ = writeln!(out, "IMGDEC {} NONE", i);
+                    }
+                    Some(dec) => {
+                        let _ = writeln!(out, "IMGDEC {} {}", i, image_fields(&dec));
+                    }
+                }
+            }
+        }
+    }
+    out
+}
+
+// ---------------------------------------------------------------------------------------------
+// messages
+// ---------------------------------------------------------------------------------------------
+
+fn gen_text(rng: &mut Rng, url: bool) -> String {
+    if url && rng.chance(1, 3) {
+        let kind = *rng.pick(&["mesh", "image", "audio"]);
+        return format!(
+            "http://{}.{}.{}.{}:{}/{}/{}",
+            rng.below(256),
+            rng.below(256),
+            rng.below(256),
+            rng.below(256),
+            rng.below(65536),
+            kind,
+            gen_uuid(rng)
+        );
+    }
+    gen_string(rng, 1000)
+}
+
+fn gen_u16(rng: &mut Rng) -> u16 {
+    match rng.below(4) {
+        0 => 0,
+        1 => 65535,
+        _ => rng.next_u64() as u16,
+    }
+}
+
+fn gen_blob(rng: &mut Rng) -> Vec<u8> {
+    let n = match rng.below(6) {
+        0 => 0,
+        1 => rng.range(1, 16) as usize,
+        5 => 2000,
+        _ => rng.range(0, 2000) as usize,
+    };
+    payload(rng, n)
+}
+
+fn gen_message(rng: &mut Rng, kind: u64) -> VMessage {
+    match kind {
+        0 => VMessage::EntitySpawn { id: gen_uuid(rng) },
+        1 => VMessage::EntityParented { entity_id: gen_uuid(rng), parent_id: gen_uuid(rng) },
+        2 => VMessage::EntityDelete { id: gen_uuid(rng) },
+        3 => VMessage::ComponentUpdated {
+            id: gen_uuid(rng),
+            name: gen_text(rng, false),
+            data: gen_blob(rng),
+        },
+        4 => VMessage::StandardMaterialUpdated { id: gen_uuid(rng), material: gen_blob(rng) },
+        5 => VMessage::MeshUpdated { id: gen_uuid(rng), url: gen_text(rng, true) },
+        6 => VMessage::ImageUpdated { id: gen_uuid(rng), url: gen_text(rng, true) },
+        7 => VMessage::AudioUpdated { id: gen_uuid(rng), url: gen_text(rng, true) },
+        8 => VMessage::PromoteToHost,
+        9 => {
+            let ip = if rng.chance(1, 2) {
+                let b = match rng.below(4) {
+                    0 => [0u8; 4],
+                    1 => [255u8; 4],
+                    2 => [127, 0, 0, 1],
+                    _ => {
+                        let r = rng.bytes(4);
+                        [r[0], r[1], r[2], r[3]]
+                    }
+                };
+                IpAddr::V4(Ipv4Addr::from(b))
+            } else {
+                let mut b = [0u8; 16];
+                match rng.below(4) {
+                    0 => {}
+                    1 => b = [255u8; 16],
+                    2 => b[15] = 1,
+                    _ => b.copy_from_slice(&rng.bytes(16)),
+                }
+                IpAddr::V6(Ipv6Addr::from(b))
+            };
+            let max_transfer = match rng.below(4) {
+                0 => 0usize,
+                1 => u64::MAX as usize,
+                2 => rng.below(1 << 24) as usize,
+                _ => rng.next_u64() as usize,
+            };
+            VMessage::NewHost { ip, port: gen_u16(rng), web_port: gen_u16(rng), max_transfer }
+        }
+        10 => VMessage::RequestInitialSync,
+        _ => VMessage::FinishedInitialSync,
+    }
+}
+
+pub fn msg_canon(m: &VMessage) -> String {
+    let u = |id: &Uuid| hx(id.as_bytes());
+    match m {
+        VMessage::EntitySpawn { id } => format!("spawn {}", u(id)),
+        VMessage::EntityParented { entity_id, parent_id } => {
+            format!("parented {} {}", u(entity_id), u(parent_id))
+        }
+        VMessage::EntityDelete { id } => format!("delete {}", u(id)),
+        VMessage::ComponentUpdated { id, name, data } => {
+            format!("comp {} {} {}", u(id), hx(name.as_bytes()), hx(data))
+        }
+        VMessage::StandardMaterialUpdated { id, material } => format!("mat {} {}", u(id), hx(material)),
+        VMessage::MeshUpdated { id, url } => format!("mesh {} {}", u(id), hx(url.as_bytes())),
+        VMessage::ImageUpdated { id, url } => format!("image {} {}", u(id), hx(url.as_bytes())),
+        VMessage::AudioUpdated { id, url } => format!("audio {} {}", u(id), hx(url.as_bytes())),
+        VMessage::PromoteToHost => "promote".to_string(),
+        VMessage::NewHost { ip, port, web_port, max_transfer } => match ip {
+            IpAddr::V4(a) => {
+                format!("newhost 4 {} {} {} {}", hx(&a.octets()), port, web_port, max_transfer)
+            }
+            IpAddr::V6(a) => {
+                format!("newhost 6 {} {} {} {}", hx(&a.octets()), port, web_port, max_transfer)
+            }
+        },
+        VMessage::RequestInitialSync => "reqinit".to_string(),
+        VMessage::FinishedInitialSync => "fininit".to_string(),
+    }
+}
+
+pub fn msg_cases(seed: u64, count: usize) -> String {
+    let mut rng = Rng::new(seed);
+    let mut out = String::new();
+    let offset = rng.below(12);
+    for i in 0..count {
+        let m = gen_message(&mut rng, (i as u64 + offset) % 12);
+        let _ = writeln!(out, "MSG {} {}", i, msg_canon(&m));
+        let bin = m.encode();
+        let _ = writeln!(out, "MSGBIN {} {}", i, hx(&bin));
+        match VMessage::decode(&bin) {
+            None => {
+                let _ = writeln!(out, "MSGDEC {} NONE", i);
+            }
+            Some(d) => {
+                let _ = writeln!(out, "MSGDEC {} {}", i, msg_canon(&d));
+            }
+        }
+    }
+    out
+}
+
+// ---------------------------------------------------------------------------------------------
+// reflect: component family
+// ---------------------------------------------------------------------------------------------
+
+#[derive(Component, Reflect, Default, Clone, PartialEq, Debug)]
+#[reflect(Component)]
+pub struct CompA {
+    pub value: i32,
+}
+
+#[derive(Component, Reflect, Default, Clone, PartialEq, Debug)]
+#[reflect(Component)]
+pub struct CompB(pub u64, pub f32);
+
+#[derive(Component, Reflect, Default, Clone, PartialEq, Debug)]
+#[reflect(Component)]
+pub enum CompE {
+    #[default]
+    Unit,
+    New(u8),
+    Tup(i16, bool),
+    Struct {
+        a: u32,
+        b: String,
+    },
+}
+
+#[derive(Component, Reflect, Default, Clone, PartialEq, Debug)]
+#[reflect(Component)]
+pub struct Inner {
+    pub x: i8,
+    pub y: Option<u16>,
+}
+
+#[derive(Component, Reflect, Default, Clone, PartialEq, Debug)]
+#[reflect(Component)]
+pub struct CompN {
+    pub opt: Option<u32>,
+    pub v: Vec<i64>,
+    pub s: String,
+    pub nested: Inner,
+    pub arr: [u16; 3],
+    pub t: (u8, f64),
+    pub c: char,
+    pub big: u128,
+    pub e: CompE,
+    pub ov: Option<Vec<u8>>,
+    pub vs: Vec<String>,
+    pub b: bool,
+    pub f: f32,
+    pub neg: i64,
+}
+
+fn reg_family<T>(r: &mut TypeRegistry)
+where
+    T: Reflect + FromReflect + bevy::reflect::GetTypeRegistration + bevy::reflect::TypePath,
+{
+    // as `sync_component` does
+    r.register::<T>();
+    r.register_type_data::<T, ReflectFromReflect>();
+}
+
+/// One registry for all family types (what `sync_component::<T>()` plus
+/// `setup_cascade_registrations` leave in the App's registry, restricted to the family).
+pub fn family_registry() -> TypeRegistry {
+    let mut r = TypeRegistry::default();
+    reg_family::<CompA>(&mut r);
+    reg_family::<CompB>(&mut r);
+    reg_family::<CompE>(&mut r);
+    reg_family::<Inner>(&mut r);
+    reg_family::<CompN>(&mut r);
+    reg_family::<Transform>(&mut r);
+    r.register::<Vec3>();
+    r.register::<Quat>();
+    r.register_type_data::<Vec3, ReflectFromReflect>();
+    r.register_type_data::<Quat, ReflectFromReflect>();
+    reg_family::<Name>(&mut r);
+    reg_family::<Visibility>(&mut r);
+    reg_family::<Handle<Mesh>>(&mut r);
+    reg_family::<Handle<StandardMaterial>>(&mut r);
+    reg_family::<PointLight>(&mut r);
+    reg_family::<StandardMaterial>(&mut r);
+    // setup_cascade_registrations::<Handle<StandardMaterial>> / material_serde test
+    r.register::<Color>();
+    r.register::<Image>();
+    r.register::<Handle<Image>>();
+    r.register::<Option<Handle<Image>>>();
+    r.register::<AlphaMode>();
+    r.register::<ParallaxMappingMethod>();
+    r.register::<OpaqueRendererMethod>();
+    r
+}
+
+// ---- wire schema (TY) by walking the registry ------------------------------------------------
+
+/// Opaque (`ReflectKind::Value`) types WITHOUT `ReflectSerialize` that are known to sit inside
+/// family types; the serializer errors when it reaches a value of such a type. Printed as `X`.
+/// Anything else of that kind panics so that nothing is guessed.
+const KNOWN_UNSERIALIZABLE: [&str; 1] = ["std::sync::Arc<bevy_asset::handle::StrongHandle>"];
+
+/// Hand-written schema of types whose registration carries `ReflectSerialize` (the value is
+/// written by its serde impl, not by reflection).
+fn serde_schema(type_path: &str) -> String {
+    let color4 = "T(I4,I4,I4,I4)";
+    match type_path {
+        "()" => "U".into(),
+        "bool" => "B".into(),
+        "char" => "C".into(),
+        "u8" | "i8" => "I1".into(),
+        "u16" | "i16" => "I2".into(),
+        "u32" | "i32" | "f32" => "I4".into(),
+        "u64" | "i64" | "f64" | "usize" | "isize" => "I8".into(),
+        "u128" | "i128" => "I16".into(),
+        // serialize_str
+        "alloc::string::String" | "alloc::borrow::Cow<str>" | "bevy_core::name::Name" => "Y".into(),
+        // uuid 1.x, not human readable: serialize_bytes(as_bytes()) = u64 length 16 + 16 bytes
+        "uuid::Uuid" => "Y".into(),
+        // glam serde: serialize_tuple_struct(name, n) of f32
+        "glam::Vec2" => "A2(I4)".into(),
+        "glam::Vec3" | "glam::Vec3A" => "A3(I4)".into(),
+        "glam::Vec4" | "glam::Quat" => "A4(I4)".into(),
+        // bevy_color (feature `serialize`): serde-derived structs of four f32
+        "bevy_color::srgba::Srgba"
+        | "bevy_color::linear_rgba::LinearRgba"
+        | "bevy_color::hsla::Hsla"
+        | "bevy_color::hsva::Hsva"
+        | "bevy_color::hwba::Hwba"
+        | "bevy_color::laba::Laba"
+        | "bevy_color::lcha::Lcha"
+        | "bevy_color::oklaba::Oklaba"
+        | "bevy_color::oklcha::Oklcha"
+        | "bevy_color::xyza::Xyza" => color4.into(),
+        // serde-derived enum of ten newtype variants
+        "bevy_color::color::Color" => format!("E({})", vec![color4; 10].join("|")),
+        other => panic!("serde_schema: type `{other}` has ReflectSerialize but no hand-written schema"),
+    }
+}
+
+fn is_option(info: &bevy::reflect::EnumInfo) -> bool {
+    info.type_path_table().module_path() == Some("core::option")
+        && info.type_path_table().ident() == Some("Option")
+}
+
+/// Wire schema of the type `type_id` as `TypedReflectSerializer` (bevy_reflect 0.14.2) writes it.
+pub fn schema_of(type_id: TypeId, what: &str, reg: &TypeRegistry) -> String {
+    let registration = reg
+        .get(type_id)
+        .unwrap_or_else(|| panic!("schema_of: `{what}` is not registered"));
+    let info = registration.type_info();
+    if registration.data::<ReflectSerialize>().is_some() {
+        return serde_schema(info.type_path());
+    }
+    let skipped = registration.data::<SerializationData>();
+    let is_skipped = |i: usize| skipped.map(|d| d.is_field_skipped(i)).unwrap_or(false);
+    let tuple = |parts: Vec<String>| format!("T({})", parts.join(","));
+    match info {
+        TypeInfo::Struct(s) => tuple(
+            (0..s.field_len())
+                .filter(|i| !is_skipped(*i))
+                .map(|i| {
+                    let f = s.field_at(i).unwrap();
+                    schema_of(f.type_id(), f.type_path(), reg)
+                })
+                .collect(),
+        ),
+        TypeInfo::TupleStruct(s) => {
+            let parts: Vec<String> = (0..s.field_len())
+                .filter(|i| !is_skipped(*i))
+                .map(|i| {
+                    let f = s.field_at(i).unwrap();
+                    schema_of(f.type_id(), f.type_path(), reg)
+                })
+                .collect();
+            if s.field_len() == 1 && parts.len() == 1 {
+                parts.into_iter().next().unwrap()
+            } else {
+                tuple(parts)
+            }
+        }
+        TypeInfo::Tuple(t) => tuple(
+            (0..t.field_len())
+                .map(|i| {
+                    let f = t.field_at(i).unwrap();
+                    schema_of(f.type_id(), f.type_path(), reg)
+                })
+                .collect(),
+        ),
+        TypeInfo::List(l) => {
+            format!("S({})", schema_of(l.item_type_id(), l.item_type_path_table().path(), reg))
+        }
+        TypeInfo::Array(a) => format!(
+            "A{}({})",
+            a.capacity(),
+            schema_of(a.item_type_id(), a.item_type_path_table().path(), reg)
+        ),
+        TypeInfo::Map(m) => format!(
+            "S(T({},{}))",
+            schema_of(m.key_type_id(), m.key_type_path_table().path(), reg),
+            schema_of(m.value_type_id(), m.value_type_path_table().path(), reg)
+        ),
+        TypeInfo::Enum(e) => {
+            if is_option(e) {
+                let some = e
+                    .iter()
+                    .find_map(|v| match v {
+                        VariantInfo::Tuple(t) if t.field_len() == 1 => Some(t.field_at(0).unwrap()),
+                        _ => None,
+                    })
+                    .expect("Option has a Some variant");
+                return format!("O({})", schema_of(some.type_id(), some.type_path(), reg));
+            }
+            let parts: Vec<String> = e
+                .iter()
+                .map(|v| match v {
+                    VariantInfo::Unit(_) => "U".to_string(),
+                    VariantInfo::Tuple(t) if t.field_len() == 1 => {
+                        let f = t.field_at(0).unwrap();
+                        schema_of(f.type_id(), f.type_path(), reg)
+                    }
+                    VariantInfo::Tuple(t) => tuple(
+                        t.iter().map(|f| schema_of(f.type_id(), f.type_path(), reg)).collect(),
+                    ),
+                    // no SerializationData for variant fields: all reflected fields are written
+                    VariantInfo::Struct(s) => tuple(
+                        s.iter().map(|f| schema_of(f.type_id(), f.type_path(), reg)).collect(),
+                    ),
+                })
+                .collect();
+            format!("E({})", parts.join("|"))
+        }
+        TypeInfo::Value(v) => {
+            if KNOWN_UNSERIALIZABLE.contains(&v.type_path()) {
+                "X".to_string()
+            } else {
+                panic!(
+                    "schema_of: opaque type `{}` (reached as `{what}`) has no ReflectSerialize",
+                    v.type_path()
+                )
+            }
+        }
+    }
+}
+
+// ---- value (VAL) by walking the reflected value ----------------------------------------------
+
+fn ystr(s: &str) -> String {
+    format!("y{}", hx(s.as_bytes()))
+}
+
+fn color4(a: [f32; 4]) -> String {
+    format!("t(i{},i{},i{},i{})", a[0].to_bits(), a[1].to_bits(), a[2].to_bits(), a[3].to_bits())
+}
+
+/// Value of a type with `ReflectSerialize`, per the same hand-written table as `serde_schema`.
+fn serde_val(type_path: &str, v: &dyn Reflect) -> String {
+    macro_rules! get {
+        ($t:ty) => {
+            v.downcast_ref::<$t>().unwrap_or_else(|| {
+                panic!("serde_val: value of `{type_path}` is a `{}`", v.reflect_type_path())
+            })
+        };
+    }
+    match type_path {
+        "()" => "u".into(),
+        "bool" => format!("b{}", *get!(bool) as u8),
+        "char" => format!("c{}", *get!(char) as u32),
+        "u8" => format!("i{}", get!(u8)),
+        "u16" => format!("i{}", get!(u16)),
+        "u32" => format!("i{}", get!(u32)),
+        "u64" => format!("i{}", get!(u64)),
+        "u128" => format!("i{}", get!(u128)),
+        "usize" => format!("i{}", *get!(usize) as u64),
+        "i8" => format!("i{}", *get!(i8) as u8),
+        "i16" => format!("i{}", *get!(i16) as u16),
+        "i32" => format!("i{}", *get!(i32) as u32),
+        "i64" => format!("i{}", *get!(i64) as u64),
+        "i128" => format!("i{}", *get!(i128) as u128),
+        "isize" => format!("i{}", *get!(isize) as i64 as u64),
+        "f32" => format!("i{}", get!(f32).to_bits()),
+        "f64" => format!("i{}", get!(f64).to_bits()),
+        "alloc::string::String" => ystr(get!(String)),
+        "alloc::borrow::Cow<str>" => ystr(get!(std::borrow::Cow<'static, str>)),
+        "bevy_core::name::Name" => ystr(get!(Name).as_str()),
+        "uuid::Uuid" => format!("y{}", hx(get!(Uuid).as_bytes())),
+        "glam::Vec2" => {
+            let a = get!(Vec2).to_array();
+            format!("a(i{},i{})", a[0].to_bits(), a[1].to_bits())
+        }
+        "glam::Vec3" => {
+            let a = get!(Vec3).to_array();
+            format!("a(i{},i{},i{})", a[0].to_bits(), a[1].to_bits(), a[2].to_bits())
+        }
+        "glam::Vec3A" => {
+            let a = get!(bevy::math::Vec3A).to_array();
+            format!("a(i{},i{},i{})", a[0].to_bits(), a[1].to_bits(), a[2].to_bits())
+        }
+        "glam::Vec4" => {
+            let a = get!(Vec4).to_array();
+            format!("a(i{},i{},i{},i{})", a[0].to_bits(), a[1].to_bits(), a[2].to_bits(), a[3].to_bits())
+        }
+        "glam::Quat" => {
+            let a = get!(Quat).to_array();
+            format!("a(i{},i{},i{},i{})", a[0].to_bits(), a[1].to_bits(), a[2].to_bits(), a[3].to_bits())
+        }
+        "bevy_color::srgba::Srgba" => {
+            let c = get!(Srgba);
+            color4([c.red, c.green, c.blue, c.alpha])
+        }
+        "bevy_color::linear_rgba::LinearRgba" => {
+            let c = get!(LinearRgba);
+            color4([c.red, c.green, c.blue, c.alpha])
+        }
+        "bevy_color::hsla::Hsla" => {
+            let c = get!(Hsla);
+            color4([c.hue, c.saturation, c.lightness, c.alpha])
+        }
+        "bevy_color::hsva::Hsva" => {
+            let c = get!(Hsva);
+            color4([c.hue, c.saturation, c.value, c.alpha])
+        }
+        "bevy_color::hwba::Hwba" => {
+            let c = get!(Hwba);
+            color4([c.hue, c.whiteness, c.blackness, c.alpha])
+        }
+        "bevy_color::laba::Laba" => {
+            let c = get!(Laba);
+            color4([c.lightness, c.a, c.b, c.alpha])
+        }
+        "bevy_color::lcha::Lcha" => {
+            let c = get!(Lcha);
+            color4([c.lightness, c.chroma, c.hue, c.alpha])
+        }
+        "bevy_color::oklaba::Oklaba" => {
+            let c = get!(Oklaba);
+            color4([c.lightness, c.a, c.b, c.alpha])
+        }
+        "bevy_color::oklcha::Oklcha" => {
+            let c = get!(Oklcha);
+            color4([c.lightness, c.chroma, c.hue, c.alpha])
+        }
+        "bevy_color::xyza::Xyza" => {
+            let c = get!(Xyza);
+            color4([c.x, c.y, c.z, c.alpha])
+        }
+        "bevy_color::color::Color" => match *get!(Color) {
+            Color::Srgba(c) => format!("e0({})", color4([c.red, c.green, c.blue, c.alpha])),
+            Color::LinearRgba(c) => format!("e1({})", color4([c.red, c.green, c.blue, c.alpha])),
+            Color::Hsla(c) => format!("e2({})", color4([c.hue, c.saturation, c.lightness, c.alpha])),
+            Color::Hsva(c) => format!("e3({})", color4([c.hue, c.saturation, c.value, c.alpha])),
+            Color::Hwba(c) => format!("e4({})", color4([c.hue, c.whiteness, c.blackness, c.alpha])),
+            Color::Laba(c) => format!("e5({})", color4([c.lightness, c.a, c.b, c.alpha])),
+            Color::Lcha(c) => format!("e6({})", color4([c.lightness, c.chroma, c.hue, c.alpha])),
+            Color::Oklaba(c) => format!("e7({})", color4([c.lightness, c.a, c.b, c.alpha])),
+            Color::Oklcha(c) => format!("e8({})", color4([c.lightness, c.chroma, c.hue, c.alpha])),
+            Color::Xyza(c) => format!("e9({})", color4([c.x, c.y, c.z, c.alpha])),
+        },
+        other => panic!("serde_val: type `{other}` has ReflectSerialize but no hand-written printer"),
+    }
+}
+
+/// VAL of a reflected value (concrete or dynamic-with-represented-type), mirroring
+/// `TypedReflectSerializer::serialize`.
+pub fn val_of(v: &dyn Reflect, reg: &TypeRegistry) -> String {
+    let info = v.get_represented_type_info().unwrap_or_else(|| {
+        panic!("val_of: `{}` does not represent any type", v.reflect_type_path())
+    });
+    if reg.get_type_data::<ReflectSerialize>(info.type_id()).is_some() {
+        return serde_val(info.type_path(), v);
+    }
+    let skipped = reg.get(info.type_id()).and_then(|r| r.data::<SerializationData>());
+    let is_skipped = |i: usize| skipped.map(|d| d.is_field_skipped(i)).unwrap_or(false);
+    let join = |parts: Vec<String>| parts.join(",");
+    match v.reflect_ref() {
+        ReflectRef::Struct(s) => format!(
+            "t({})",
+            join(
+                s.iter_fields()
+                    .enumerate()
+                    .filter(|(i, _)| !is_skipped(*i))
+                    .map(|(_, f)| val_of(f, reg))
+                    .collect()
+            )
+        ),
+        ReflectRef::TupleStruct(s) => {
+            let parts: Vec<String> = s
+                .iter_fields()
+                .enumerate()
+                .filter(|(i, _)| !is_skipped(*i))
+                .map(|(_, f)| val_of(f, reg))
+                .collect();
+            if s.field_len() == 1 && parts.len() == 1 {
+                parts.into_iter().next().unwrap()
+            } else {
+                format!("t({})", join(parts))
+            }
+        }
+        ReflectRef::Tuple(t) => format!("t({})", join(t.iter_fields().map(|f| val_of(f, reg)).collect())),
+        ReflectRef::List(l) => format!("s({})", join(l.iter().map(|f| val_of(f, reg)).collect())),
+        ReflectRef::Array(a) => format!("a({})", join(a.iter().map(|f| val_of(f, reg)).collect())),
+        ReflectRef::Map(m) => format!(
+            "s({})",
+            join(m.iter().map(|(k, x)| format!("t({},{})", val_of(k, reg), val_of(x, reg))).collect())
+        ),
+        ReflectRef::Enum(e) => {
+            let option = match info {
+                TypeInfo::Enum(ei) => is_option(ei),
+                other => panic!("val_of: enum value with non-enum info {other:?}"),
+            };
+            let fields: Vec<String> = e.iter_fields().map(|f| val_of(f.value(), reg)).collect();
+            if option {
+                return match e.variant_type() {
+                    VariantType::Unit => "o~".to_string(),
+                    VariantType::Tuple if fields.len() == 1 => format!("o({})", fields[0]),
+                    _ => panic!("val_of: malformed Option value"),
+                };
+            }
+            let body = match e.variant_type() {
+                VariantType::Unit => "u".to_string(),
+                VariantType::Tuple if fields.len() == 1 => fields[0].clone(),
+                VariantType::Tuple | VariantType::Struct => format!("t({})", join(fields)),
+            };
+            format!("e{}({})", e.variant_index(), body)
+        }
+        ReflectRef::Value(_) => panic!(
+            "val_of: opaque value of `{}` has no ReflectSerialize (the serializer errors here)",
+            info.type_path()
+        ),
+    }
+}
+
+// ---- value generators ------------------------------------------------------------------------
+
+fn gen_comp_e(rng: &mut Rng) -> CompE {
+    match rng.below(4) {
+        0 => CompE::Unit,
+        1 => CompE::New(int_bits(rng, 8) as u8),
+        2 => CompE::Tup(int_bits(rng, 16) as i16, rng.chance(1, 2)),
+        _ => CompE::Struct { a: int_bits(rng, 32) as u32, b: gen_string(rng, 400) },
+    }
+}
+
+fn gen_inner(rng: &mut Rng) -> Inner {
+    Inner {
+        x: int_bits(rng, 8) as i8,
+        y: if rng.chance(1, 3) { None } else { Some(int_bits(rng, 16) as u16) },
+    }
+}
+
+fn gen_comp_n(rng: &mut Rng) -> CompN {
+    let vlen = *rng.pick(&[0u64, 0, 1, 2, 50]).max(&rng.below(51));
+    let vslen = if rng.chance(1, 3) { 0 } else { rng.below(51) };
+    CompN {
+        opt: if rng.chance(1, 3) { None } else { Some(int_bits(rng, 32) as u32) },
+        v: (0..vlen).map(|_| int_bits(rng, 64) as i64).collect(),
+        s: gen_string(rng, 700),
+        nested: gen_inner(rng),
+        arr: [int_bits(rng, 16) as u16, int_bits(rng, 16) as u16, int_bits(rng, 16) as u16],
+        t: (int_bits(rng, 8) as u8, gen_f64(rng)),
+        c: gen_char(rng),
+        big: int_bits(rng, 128),
+        e: gen_comp_e(rng),
+        ov: match rng.below(4) {
+            0 => None,
+            1 => Some(vec![]),
+            _ => {
+                let n = rng.below(51) as usize;
+                Some(payload(rng, n))
+            }
+        },
+        vs: (0..vslen).map(|_| gen_string(rng, 300)).collect(),
+        b: rng.chance(1, 2),
+        f: gen_f32(rng),
+        neg: int_bits(rng, 64) as i64,
+    }
+}
+
+/// `Name { hash, name }`: in this build (bevy_core without `serialize`) `Name` has no
+/// `ReflectSerialize`, so BOTH fields travel, and `hash` is `AHasher::default()` of the name, whose
+/// keys ahash draws once per process (runtime-rng). To keep the output a function of the seed the
+/// hash is overwritten (through reflection, the field is private) with a drawn u64 - which is also
+/// what a receiver in another process sees: a hash unrelated to its own hasher keys.
+fn gen_name(rng: &mut Rng) -> Name {
+    let mut n = Name::new(gen_string(rng, 500));
+    let h = int_bits(rng, 64) as u64;
+    *(&mut n as &mut dyn Struct)
+        .field_mut("hash")
+        .expect("Name.hash is reflected")
+        .downcast_mut::<u64>()
+        .expect("Name.hash: u64") = h;
+    n
+}
+
+fn gen_vec3(rng: &mut Rng) -> Vec3 {
+    match rng.below(4) {
+        0 => Vec3::ZERO,
+        1 => Vec3::ONE,
+        _ => Vec3::new(gen_f32(rng), gen_f32(rng), gen_f32(rng)),
+    }
+}
+
+fn gen_transform(rng: &mut Rng) -> Transform {
+    Transform {
+        translation: gen_vec3(rng),
+        rotation: match rng.below(3) {
+            0 => Quat::IDENTITY,
+            _ => Quat::from_xyzw(gen_f32(rng), gen_f32(rng), gen_f32(rng), gen_f32(rng)),
+        },
+        scale: gen_vec3(rng),
+    }
+}
+
+fn gen_handle<A: Asset>(rng: &mut Rng) -> Handle<A> {
+    if rng.chance(1, 2) {
+        Handle::Weak(AssetId::Uuid { uuid: gen_uuid(rng) })
+    } else {
+        let bits = match rng.below(4) {
+            0 => 0,
+            1 => u64::MAX,
+            2 => rng.below(1000),
+            _ => rng.next_u64(),
+        };
+        Handle::Weak(AssetId::Index {
+            index: AssetIndex::from_bits(bits),
+            marker: std::marker::PhantomData,
+        })
+    }
+}
+
+fn gen_color(rng: &mut Rng) -> Color {
+    let a = [gen_f32(rng), gen_f32(rng), gen_f32(rng), gen_f32(rng)];
+    let nice = [
+        (rng.below(256) as f32) / 255.0,
+        (rng.below(256) as f32) / 255.0,
+        (rng.below(256) as f32) / 255.0,
+        1.0,
+    ];
+    let a = if rng.chance(1, 2) { nice } else { a };
+    match rng.below(12) {
+        0 | 10 | 11 => Color::srgba(a[0], a[1], a[2], a[3]),
+        1 => Color::linear_rgba(a[0], a[1], a[2], a[3]),
+        2 => Color::hsla(a[0], a[1], a[2], a[3]),
+        3 => Color::hsva(a[0], a[1], a[2], a[3]),
+        4 => Color::hwba(a[0], a[1], a[2], a[3]),
+        5 => Color::laba(a[0], a[1], a[2], a[3]),
+        6 => Color::lcha(a[0], a[1], a[2], a[3]),
+        7 => Color::oklaba(a[0], a[1], a[2], a[3]),
+        8 => Color::oklcha(a[0], a[1], a[2], a[3]),
+        _ => Color::xyza(a[0], a[1], a[2], a[3]),
+    }
+}
+
+fn gen_unit_f32(rng: &mut Rng) -> f32 {
+    match rng.below(4) {
+        0 => 0.0,
+        1 => 1.0,
+        2 => rng.below(1001) as f32 / 1000.0,
+        _ => gen_f32(rng),
+    }
+}
+
+fn gen_point_light(rng: &mut Rng) -> PointLight {
+    PointLight {
+        color: gen_color(rng),
+        intensity: gen_f32(rng),
+        range: gen_f32(rng),
+        radius: gen_unit_f32(rng),
+        shadows_enabled: rng.chance(1, 2),
+        shadow_depth_bias: gen_unit_f32(rng),
+        shadow_normal_bias: gen_unit_f32(rng),
+    }
+}
+
+fn gen_tex(rng: &mut Rng) -> Option<Handle<Image>> {
+    match rng.below(4) {
+        0 | 1 => None,
+        _ => Some(gen_handle::<Image>(rng)),
+    }
+}
+
+fn gen_uv(rng: &mut Rng) -> UvChannel {
+    if rng.chance(1, 2) {
+        UvChannel::Uv0
+    } else {
+        UvChannel::Uv1
+    }
+}
+
+fn gen_material(rng: &mut Rng) -> StandardMaterial {
+    let mut m = StandardMaterial::default();
+    if rng.chance(1, 12) {
+        return m;
+    }
+    m.base_color = gen_color(rng);
+    m.base_color_texture = gen_tex(rng);
+    m.emissive = LinearRgba::new(gen_unit_f32(rng), gen_unit_f32(rng), gen_unit_f32(rng), gen_unit_f32(rng));
+    m.emissive_texture = gen_tex(rng);
+    m.perceptual_roughness = gen_unit_f32(rng);
+    m.metallic = gen_unit_f32(rng);
+    m.metallic_roughness_texture = gen_tex(rng);
+    m.normal_map_texture = gen_tex(rng);
+    m.occlusion_texture = gen_tex(rng);
+    m.depth_map = gen_tex(rng);
+    m.double_sided = rng.chance(1, 2);
+    m.unlit = rng.chance(1, 2);
+    m.fog_enabled = rng.chance(1, 2);
+    m.flip_normal_map_y = rng.chance(1, 2);
+    m.alpha_mode = match rng.below(8) {
+        0 => AlphaMode::Opaque,
+        1 | 2 => AlphaMode::Mask(gen_unit_f32(rng)),
+        3 => AlphaMode::Blend,
+        4 => AlphaMode::Premultiplied,
+        5 => AlphaMode::AlphaToCoverage,
+        6 => AlphaMode::Add,
+        _ => AlphaMode::Multiply,
+    };
+    if rng.chance(1, 2) {
+        // the remaining reflected fields
+        m.base_color_channel = gen_uv(rng);
+        m.emissive_channel = gen_uv(rng);
+        m.metallic_roughness_channel = gen_uv(rng);
+        m.normal_map_channel = gen_uv(rng);
+        m.occlusion_channel = gen_uv(rng);
+        m.emissive_exposure_weight = gen_unit_f32(rng);
+        m.reflectance = gen_unit_f32(rng);
+        m.diffuse_transmission = gen_unit_f32(rng);
+        m.specular_transmission = gen_unit_f32(rng);
+        m.thickness = gen_unit_f32(rng);
+        m.ior = gen_f32(rng);
+        m.attenuation_distance = gen_f32(rng);
+        m.attenuation_color = gen_color(rng);
+        m.clearcoat = gen_unit_f32(rng);
+        m.clearcoat_perceptual_roughness = gen_unit_f32(rng);
+        m.anisotropy_strength = gen_unit_f32(rng);
+        m.anisotropy_rotation = gen_f32(rng);
+        m.depth_bias = gen_f32(rng);
+        m.parallax_depth_scale = gen_unit_f32(rng);
+        m.parallax_mapping_method = if rng.chance(1, 2) {
+            ParallaxMappingMethod::Occlusion
+        } else {
+            ParallaxMappingMethod::Relief { max_steps: int_bits(rng, 32) as u32 }
+        };
+        m.max_parallax_layer_count = gen_f32(rng);
+        m.lightmap_exposure = gen_f32(rng);
+        m.opaque_render_method = match rng.below(3) {
+            0 => OpaqueRendererMethod::Forward,
+            1 => OpaqueRendererMethod::Deferred,
+            _ => OpaqueRendererMethod::Auto,
+        };
+        m.deferred_lighting_pass_id = int_bits(rng, 8) as u8;
+        m.uv_transform = bevy::math::Affine2::from_cols_array(&[
+            gen_f32(rng),
+            gen_f32(rng),
+            gen_f32(rng),
+            gen_f32(rng),
+            gen_f32(rng),
+            gen_f32(rng),
+        ]);
+    }
+    // `cull_mode` is #[reflect(ignore)]: it never travels and is left at its default here.
+    m
+}
+
+// ---- case emission ---------------------------------------------------------------------------
+
+fn emit_case<T>(out: &mut String, i: usize, v: &T, reg: &TypeRegistry, eq: fn(&T, &T) -> bool)
+where
+    T: Reflect + FromReflect + bevy::reflect::TypePath,
+{
+    let path = v
+        .get_represented_type_info()
+        .expect("family types have type info")
+        .type_path();
+    let ty = schema_of(TypeId::of::<T>(), path, reg);
+    let _ = writeln!(out, "REFL {} path={} ty={} val={}", i, hx(path.as_bytes()), ty, val_of(v, reg));
+    let bytes = reflect_to_bin(v.as_reflect(), reg)
+        .unwrap_or_else(|e| panic!("reflect_to_bin failed on case {i} ({path}): {e}"));
+    let _ = writeln!(out, "REFLBIN {} {}", i, hx(&bytes));
+    let back = bin_to_reflect(&bytes, reg);
+    let partial_eq = v.reflect_partial_eq(&*back) == Some(true);
+    let from_reflect = match T::from_reflect(&*back) {
+        Some(t) => eq(&t, v),
+        None => false,
+    };
+    let reenc = match reflect_to_bin(&*back, reg) {
+        Ok(b) => b == bytes,
+        Err(_) => false,
+    };
+    let _ = writeln!(
+        out,
+        "REFLCHK {} partial_eq={} from_reflect={} reenc={} dec={}",
+        i,
+        partial_eq as u8,
+        from_reflect as u8,
+        reenc as u8,
+        val_of(&*back, reg)
+    );
+}
+
+fn eq_partial<T: PartialEq>(a: &T, b: &T) -> bool {
+    a == b
+}
+
+fn eq_debug<T: std::fmt::Debug>(a: &T, b: &T) -> bool {
+    format!("{:?}", a) == format!("{:?}", b)
+}
+
+pub const FAMILY_KINDS: u64 = 12;
+
+pub fn reflect_cases(seed: u64, count: usize) -> String {
+    let mut rng = Rng::new(seed);
+    let reg = family_registry();
+    let mut out = String::new();
+    let offset = rng.below(FAMILY_KINDS);
+    for i in 0..count {
+        let r = &mut rng;
+        match (i as u64 + offset) % FAMILY_KINDS {
+            0 => emit_case(&mut out, i, &CompA { value: int_bits(r, 32) as i32 }, &reg, eq_partial),
+            1 => emit_case(&mut out, i, &CompB(int_bits(r, 64) as u64, gen_f32(r)), &reg, eq_partial),
+            2 => emit_case(&mut out, i, &gen_comp_e(r), &reg, eq_partial),
+            3 => emit_case(&mut out, i, &gen_inner(r), &reg, eq_partial),
+            4 => emit_case(&mut out, i, &gen_comp_n(r), &reg, eq_partial),
+            5 => emit_case(&mut out, i, &gen_transform(r), &reg, eq_partial),
+            6 => emit_case(&mut out, i, &gen_name(r), &reg, eq_partial),
+            7 => {
+                let v = match r.below(3) {
+                    0 => Visibility::Inherited,
+                    1 => Visibility::Hidden,
+                    _ => Visibility::Visible,
+                };
+                emit_case(&mut out, i, &v, &reg, eq_partial)
+            }
+            8 => emit_case(&mut out, i, &gen_handle::<Mesh>(r), &reg, eq_partial),
+            9 => emit_case(&mut out, i, &gen_handle::<StandardMaterial>(r), &reg, eq_partial),
+            10 => emit_case(&mut out, i, &gen_point_light(r), &reg, eq_debug),
+            _ => emit_case(&mut out, i, &gen_material(r), &reg, eq_debug),
+        }
+    }
+    out
 }
